@@ -156,6 +156,7 @@ class Registry:
         self.theory_attrs: Dict[tuple, Callable] = {}
         self.builtins: Dict[str, Any] = {}
         self.class_ctor: Dict[str, Callable] = {}
+        self.stale_state: set = set()                 # classes whose harness-unset fields are arbitrary instead of __init__ values
         self.loops: Dict[str, Dict[int, LoopSpec]] = {}   # ref -> {ordinal: LoopSpec}
         self.stmt_hook: Optional[Callable] = None     # called before every statement: hook(interp, node, env)
         self.inlined_used: set = set()
@@ -712,6 +713,19 @@ class Interp:
                 elif isinstance(sub, ast.AnnAssign) and sub.value is not None:
                     tgt, val = sub.target, sub.value
                 if tgt is not None and isinstance(tgt, ast.Attribute) and isinstance(tgt.value, ast.Name) and tgt.value.id == "self" and tgt.attr == attr:
+                    if ci.name in getattr(self.reg, "stale_state", ()) and isinstance(sub, ast.AnnAssign):
+                        # the harness analyses a method that runs on an object used before (e.g. once per commit attempt): a
+                        # field it did not set holds whatever an earlier call left there, not the constructor's value
+                        srca = ast.unparse(sub.annotation)
+                        c = self.ctx
+                        nm = f"{ci.name}.{attr}"
+                        mk1 = {"int": lambda: SInt(c.fresh_int(nm)), "bool": lambda: SBool(c.fresh_bool(nm)), "str": lambda: SStr(c.fresh_str(nm))}
+                        if srca in mk1:
+                            self.ctx.use(f"stale-state: {nm} not set by the harness -> arbitrary (left by an earlier call)")
+                            return mk1[srca]()
+                        if srca.startswith("Optional[") and srca[9:-1] in mk1:
+                            self.ctx.use(f"stale-state: {nm} not set by the harness -> arbitrary (left by an earlier call)")
+                            return SOpt(c.fresh_bool(nm + "_none"), mk1[srca[9:-1]]())
                     try:
                         lit = ast.literal_eval(val)
                     except Exception:
